@@ -2,6 +2,7 @@
 # extraction + driver build; run from anywhere
 set -e
 D=$(cd "$(dirname "$0")" && pwd)
+mkdir -p "$D/gen"
 cd "$D/gen"
 coqc -R ../../coq PV ../../coq/Extract/Extract.v > extract.log 2>&1
 cp ../driver.ml .
